@@ -130,6 +130,15 @@ MUTATIONS = [
     ("tlexport/main.py", '        if session.matches_session_dgram(packet.ip_src, packet.ip_dst, packet.sport, packet.dport):\n            session.handle_packet(packet, dcid, quic_version)\n            return\n', '        if session.matches_session_dgram(packet.ip_src, packet.ip_dst, packet.sport, packet.dport):\n            session.handle_packet(packet, dcid, quic_version)\n            continue\n', 'main.quic_loop: 4-tuple match goes on to the next session'),
     ("tlexport/main.py", '        quic_sessions.append(new_session)\n        new_session.handle_packet(packet, dcid, quic_version)', '        quic_sessions.append(new_session)', 'main.quic_loop: first packet of a new session not processed'),
     ("tlexport/main.py", '                    candidates = session.server_cids\n                else:\n                    candidates = session.client_cids', '                    candidates = session.client_cids\n                else:\n                    candidates = session.server_cids', 'main.quic_loop: sender-side CIDs as candidates (fragment)'),
+    # group Opts: main.py options
+    ("tlexport/main.py", '        i = i.replace(",", "") # if somebody is using a "," as seperator\n', '', 'get_port_map: commas kept'),
+    ("tlexport/main.py", '        output_port = int(split[1])', '        output_port = int(split[-1])', 'get_port_map: output port is the last field'),
+    ("tlexport/main.py", '        port_map[server_port] = output_port', '        port_map[output_port] = server_port', 'get_port_map: map inverted'),
+    ("tlexport/main.py", '        split = i.split(":")\n        server_port = int(split[0])\n        output_port = int(split[1])', '        split = i.split(":")\n        output_port = int(split[1])\n        server_port = int(split[0])', 'get_port_map: output port converted first (IndexError before ValueError)'),
+    ("tlexport/main.py", '            setattr(namespace, self.dest, ["443:8080"])', '            setattr(namespace, self.dest, ["443:8443"])', 'MapPortsAction: another value for a bare -m'),
+    ("tlexport/main.py", "        keep_original_ports = False  # If -m is used, we don't keep original ports", "        keep_original_ports = bool(values)  # If -m is used, we don't keep original ports", 'MapPortsAction: a bare -m keeps the original ports'),
+    ("tlexport/main.py", 'server_ports = [443, 44330]', 'server_ports = [443]', 'server_ports: built-in list without 44330'),
+    ("tlexport/main.py", '    server_ports.extend([int(x) for x in args.serverports])', '    server_ports.extend([int(x) for x in args.serverports[1:]])', 'server_ports: first -p value dropped'),
     # group Keylog: keylog_reader.py
     ("tlexport/keylog_reader.py", '        self.client_random = split[1]\n        self.value = split[2]', '        self.client_random = split[2]\n        self.value = split[1]', 'Key: client random and value swapped'),
     ("tlexport/keylog_reader.py", '        split = key_line.split(" ")', '        split = key_line.split("\\t")', 'Key: line split at tabs'),
@@ -261,6 +270,8 @@ MUTATIONS = [
 REWRITES = [
     ("tlexport/decryptor.py", [('        self.get_cipher_type()\n        self.parse_keys(keys)\n', '        self.parse_keys(keys)\n        self.get_cipher_type()\n')], 'Decryptor.__init__: parse_keys before get_cipher_type'),
     ("tlexport/quic/quic_session.py", [('            case b"\\x13\\x01":\n                self.hash_fun = SHA256\n                self.cipher = AESGCM\n                self.key_length = 16\n\n            # TLS_AES_256_GCM_SHA384\n            case b"\\x13\\x02":\n                self.hash_fun = SHA384\n                self.cipher = AESGCM\n                self.key_length = 32\n', '            case b"\\x13\\x02":\n                self.hash_fun = SHA384\n                self.cipher = AESGCM\n                self.key_length = 32\n\n            case b"\\x13\\x01":\n                self.hash_fun = SHA256\n                self.cipher = AESGCM\n                self.key_length = 16\n')], 'set_tls_decryptors: the first two cases in the other order'),
+    ("tlexport/main.py", [('        i = i.replace(",", "") # if somebody is using a "," as seperator\n        split = i.split(":")', '        split = i.replace(",", "").split(":")')], 'get_port_map: comma removal and split in one expression'),
+    ("tlexport/main.py", [('        if values:\n            setattr(namespace, self.dest, values)', '        if len(values) != 0:\n            setattr(namespace, self.dest, values)')], 'MapPortsAction: `len(values) != 0` for `values`'),
     ("tlexport/keylog_reader.py", [('    for line in lines:\n        key = get_key_from_line(line)\n        if key is not None:\n            keys.append(key)', '    for line in lines:\n        key = get_key_from_line(line)\n        if key is None:\n            continue\n        keys.append(key)')], 'get_keys_from_string: `continue` on a line that is no key'),
     ("tlexport/main.py", [('    if packet.dport in server_ports or packet.sport in server_ports:\n        sessions.append(', '    if packet.sport in server_ports or packet.dport in server_ports:\n        sessions.append(')], 'main.handle_packet: port tests swapped'),
     ("tlexport/quic/quic_session.py", [('                if isserver:\n                    self.server_cids.add(frame.connection_id)\n                else:\n                    self.client_cids.add(frame.connection_id)', '                if not isserver:\n                    self.client_cids.add(frame.connection_id)\n                else:\n                    self.server_cids.add(frame.connection_id)')], 'handle_frame: NEW_CONNECTION_ID branches swapped under `not`'),
@@ -341,6 +352,8 @@ def group_of(what):
     if fn in ("parse_keys", "Decryptor.__init__"):
         return ["Decrypt2"]
 
+    if fn in ("get_port_map", "MapPortsAction", "server_ports"):
+        return ["Opts"]
     if fn in ("Key", "get_key_from_line", "get_keys_from_string"):
         return ["Keylog"]
     if fn.startswith("main."):
